@@ -106,6 +106,24 @@ Example C15_ex_fat32 : valid_geom ex32 /\ is_fat32 ex32 = true /\
         (Fat32Info 2 2049)).
 Proof. exact (conj ex32_valid (conj eq_refl ex32_mounts)). Qed.
 
+(* any number of FAT copies from 1 to 255 (BPB_NumFATs is one byte): a 3-FAT and a 255-FAT volume are valid,
+   mount, record no second-FAT start (that field exists for exactly two copies) and place the root directory
+   and the data area behind ALL copies; C15_valid applies to them *)
+Example C15_ex_many_fats :
+  valid_geom ex_fats3 /\ valid_geom ex_fats255 /\ g_nfats ex_fats3 = 3 /\ g_nfats ex_fats255 = 255 /\
+  mount (format ex_fats3) 0 =
+    Ok (mkVolume 63 5000 [32;32;32;32;32;32;32;32;32;32;32] 1 84 1 None None None 4085 (Fat16Info 52 512)) /\
+  mount (format ex_fats255) 2 =
+    Ok (mkVolume 2048 9000 [32;32;32;32;32;32;32;32;32;32;32] 1 4368 1 None None None 4085 (Fat16Info 4336 512)) /\
+  mount (format ex_fats3) (g_slot ex_fats3) = Ok (layout ex_fats3) /\
+  mount (format ex_fats255) (g_slot ex_fats255) = Ok (layout ex_fats255).
+Proof.
+  split; [exact ex_fats3_valid|]. split; [exact ex_fats255_valid|]. split; [reflexivity|]. split; [reflexivity|].
+  split; [exact ex_fats3_mounts|]. split; [exact ex_fats255_mounts|]. split.
+  - apply C15_valid; [exact ex_fats3_valid|]. unfold ends_at_limit. vm_compute. discriminate.
+  - apply C15_valid; [exact ex_fats255_valid|]. unfold ends_at_limit. vm_compute. discriminate.
+Qed.
+
 (* a FAT16 volume whose last block is block 2^32-1 of the card: valid, in the known class, refused *)
 Example C15_ex_last_block : valid_geom ex_edge /\ ends_at_limit ex_edge /\
   mount (format ex_edge) 3 = Err (FormatError NoFit).
